@@ -95,3 +95,31 @@ func Digests(b atree.DigesterBuilder, key TV) ([]uint64, error) {
 	}
 	return out, nil
 }
+
+// HashInputBucket is a NON-injective hash-input provider (keys with equal Pay%7 hash alike): with the
+// default digester this produces genuine collisions on every level between keys of one bucket, and
+// exercises the library's pooled digesters beyond level 0.
+func HashInputBucket(v atree.Value, buf []byte) ([]byte, error) {
+	tv, ok := v.(TV)
+	if !ok {
+		return nil, fmt.Errorf("hash input: not a TV: %T", v)
+	}
+	return []byte{byte(tv.Pay % 7), 0xAB}, nil
+}
+
+// DigestsWith is Digests with an explicit hash-input provider.
+func DigestsWith(b atree.DigesterBuilder, hip atree.HashInputProvider, key TV) ([]uint64, error) {
+	d, err := b.Digest(hip, key)
+	if err != nil {
+		return nil, err
+	}
+	var out []uint64
+	for l := uint(0); l < d.Levels(); l++ {
+		x, err := d.Digest(l)
+		if err != nil {
+			return nil, err
+		}
+		out = append(out, uint64(x))
+	}
+	return out, nil
+}
